@@ -229,6 +229,27 @@ theorem C06B_visit_committed {sh : Shape} {a : GM} {n i : Nat} {todo : List Nat}
   · exact .inl rfl
 
 
+
+/-- **No record of an unsealed batch is ever rewritten.**  While a batch is open (`bstart = some s`)
+the records a restart would leave parked — the uncommitted ones — are exactly the log from
+position `s` on; the boundary of a running or finished gated scan lies at or before `s`, and every
+record of `out` was copied from a position `i < n ≤ s`: a committed record. -/
+theorem C06B_open_batch_not_rewritten {sh : Shape} {a : GM} (h : ReachableM sh true a)
+    {n s : Nat} {out : List Rec} (hm : a.m = .done n out ∨ ∃ todo, a.m = .scanning n todo out)
+    (hs : a.g.bstart = some s) :
+    (replayAll a.g.log).pend = enumPos s (a.g.log.drop s) ∧ n ≤ s ∧
+    ∀ r ∈ out, ∃ k v b i, r = .put k v 0 ∧ i < s ∧ a.g.log[i]? = some (.put k v b) := by
+  have hb : boundaryOf a.m = some n := by
+    rcases hm with hm | ⟨todo, hm⟩ <;> rw [hm] <;> rfl
+  have hns := (boundary_le_bstart h n hb).2 s hs
+  refine ⟨open_batch_pend (reachable_inv0 (reachableM_base h)) hs, hns, fun r hr => ?_⟩
+  obtain ⟨k, v, b, i, h1, h2, h3, _⟩ := (C06B_output_plain h n out hm).2.2 r hr
+  exact ⟨k, v, b, i, h1, Nat.lt_of_lt_of_le h2 hns, h3⟩
+
+/-- instance: `stateE` (merge done with output `[put 2 20 0]`, second batch open from position 5) -/
+example : stateE.g.bstart = some 5 ∧ stateE.m = .done 2 [.put 2 20 0] ∧
+    enumPos 5 (stateE.g.log.drop 5) = [(5, .put 2 77 2)] := by decide +kernel
+
 /-- an instance of `C06B_visit_committed`: the state before the second visit of `scenarioE` -/
 example : ∃ a : GM, ReachableM .gated true a ∧ a.m = .scanning 2 [0] [.put 2 20 0] ∧
     a.g.writer = none ∧ visit a.g 0 [.put 2 20 0] = [.put 2 20 0] :=
